@@ -9,6 +9,8 @@ static mut ERR_COUNT: usize = 0;
 static mut ERR_MASK: u32 = 0;
 static mut TL: Option<ValueType> = None;
 static mut TR: Option<ValueType> = None;
+static mut TR2: Option<ValueType> = None;
+static mut ARG1: *const u8 = std::ptr::null();
 static mut LHS: *const u8 = std::ptr::null();
 static mut BLOCK_CALLS: usize = 0;
 static mut BLOCK_IN_LOOP: usize = 0;
@@ -42,7 +44,16 @@ impl<'ast, 'res> Resolver<'ast, 'res> {
     /// infer_expr_type: any static type (or unknown) for each operand — an over-approximation of
     /// what the real inference can return for a sub-expression.
     fn verif_infer_any(&self, expr: ExprRef<'ast>) -> Option<ValueType> {
-        unsafe { if std::ptr::eq((expr as *const Expr<'ast>).cast::<u8>(), LHS) { TL } else { TR } }
+        unsafe {
+            let p = (expr as *const Expr<'ast>).cast::<u8>();
+            if std::ptr::eq(p, LHS) {
+                TL
+            } else if !ARG1.is_null() && std::ptr::eq(p, ARG1) {
+                TR2 // a second argument with a type of its own (member calls)
+            } else {
+                TR
+            }
+        }
     }
     /// check_block: records the context it is entered with; no effect.
     fn verif_check_block_record(&mut self, _block: BlockRef<'ast>) {
@@ -755,12 +766,14 @@ fn member_call_rule(field: u8, nargs: usize) {
     };
     node!(callee: Expr<'static> = Expr::Member { object: obj, field: name, field_span: sp(), span: sp() });
     node!(call: Expr<'static> = Expr::Call { callee, args: al, span: sp() });
-    let (recv, argt) = (any_type(), any_type());
+    let (recv, argt, argt2) = (any_type(), any_type(), any_type());
     // builder methods of process commands need an assignable receiver: a separate rule, left out here
     kani::assume(recv != Some(ValueType::ProcessCommand) || field == 9 || field == 10);
     unsafe {
         TL = recv;
         TR = argt;
+        TR2 = argt2;
+        ARG1 = (a1 as *const Expr<'static>).cast::<u8>();
         LHS = (obj as *const Expr<'static>).cast::<u8>();
     }
     reset();
@@ -774,10 +787,12 @@ fn member_call_rule(field: u8, nargs: usize) {
         Some(t) => match method_sig(t, field) {
             None => 8, // no such method for this type
             Some((arity, kind)) => {
-                let wrong_arg = nargs >= 1 && kind != 0 && match argt {
+                let off = |t: Option<ValueType>| match t {
                     None | Some(ValueType::Dynamic) => false,
                     Some(a) => a != if kind == 1 { ValueType::String } else { ValueType::Number },
                 };
+                // replace and slice type both of their arguments; the one-argument methods their first
+                let wrong_arg = kind != 0 && ((nargs >= 1 && off(argt)) || (nargs >= 2 && arity == 2 && off(argt2)));
                 (if arity != nargs { 16 } else { 0 }) | (if wrong_arg { 4 } else { 0 })
             }
         },
